@@ -108,4 +108,80 @@ theorem service_one_installation : ∀ (ops : List Op) (hs : List Hit), (∀ op 
     | register => simp [installationsFrom, instStep, closes, starts, ends, ih hs hrest, hitsOf]
     | unregister => simp [installationsFrom, instStep, closes, starts, ends, ih hs hrest, hitsOf]
 
+/-! ### several actions: the joint run is, action by action, the single-action run -/
+
+/-- the statistics of action `k` in the joint state -/
+def projK (s : Option (List Stats)) (k : Nat) : Option Stats := s.bind (fun sts => sts[k]?)
+
+/-- an installed joint state has one statistics object per action -/
+def WFN (cs : List Cfg) (s : Option (List Stats)) : Prop := ∀ sts, s = some sts → sts.length = cs.length
+
+theorem stepOpN_sim (cs : List Cfg) (o : Origin) (s : Option (List Stats)) (op : Op) (k : Nat) (c : Cfg)
+    (hk : cs[k]? = some c) (hwf : WFN cs s) :
+    WFN cs (stepOpN cs o s op).1 ∧
+    projK (stepOpN cs o s op).1 k = (stepOp c o (projK s k) op).1 ∧
+    ((stepOpN cs o s op).2[k]?).getD none = (stepOp c o (projK s k) op).2 := by
+  have hklt : k < cs.length := by
+    rcases Nat.lt_or_ge k cs.length with h | h
+    · exact h
+    · rw [List.getElem?_eq_none_iff.mpr h] at hk; cases hk
+  have hnone : ((nones cs)[k]?).getD none = none := by simp [nones, hk]
+  have hinit : (cs.map (fun _ => Stats.init))[k]? = some Stats.init := by simp [List.getElem?_map, hk]
+  have wfinit : WFN cs (some (cs.map (fun _ => Stats.init))) := by intro sts h; cases h; simp
+  have wfnone : WFN cs none := by intro sts h; cases h
+  cases op with
+  | hit h =>
+    cases s with
+    | none => exact ⟨wfnone, by simp [stepOpN, stepOp, projK], by simp [stepOpN, stepOp, projK, hnone]⟩
+    | some sts =>
+      have hl := hwf sts rfl
+      have hst : ∃ st, sts[k]? = some st := ⟨sts[k]'(by omega), List.getElem?_eq_getElem (by omega)⟩
+      obtain ⟨st, hst⟩ := hst
+      refine ⟨?_, ?_, ?_⟩
+      · intro sts' h'
+        simp only [stepOpN, Option.some.injEq] at h'
+        subst h'
+        simp [List.length_zipWith, hl]
+      · simp [stepOpN, stepOp, projK, List.getElem?_map, List.getElem?_zipWith, hk, hst]
+      · simp [stepOpN, stepOp, projK, List.getElem?_map, List.getElem?_zipWith, hk, hst]
+  | update present =>
+    cases o <;> cases present <;>
+      first
+        | exact ⟨wfinit, by simp [stepOpN, stepOp, projK, hinit], by simp [stepOpN, stepOp, hnone]⟩
+        | exact ⟨wfnone, by simp [stepOpN, stepOp, projK], by simp [stepOpN, stepOp, hnone]⟩
+        | exact ⟨hwf, by simp [stepOpN, stepOp], by simp [stepOpN, stepOp, hnone]⟩
+  | noChange => exact ⟨hwf, by simp [stepOpN, stepOp], by simp [stepOpN, stepOp, hnone]⟩
+  | otherCustom => exact ⟨hwf, by simp [stepOpN, stepOp], by simp [stepOpN, stepOp, hnone]⟩
+  | register =>
+    cases s with
+    | none =>
+      cases o <;>
+        first
+          | exact ⟨wfinit, by simp [stepOpN, stepOp, projK, hinit], by simp [stepOpN, stepOp, projK, hnone]⟩
+          | exact ⟨hwf, by simp [stepOpN, stepOp, projK], by simp [stepOpN, stepOp, projK, hnone]⟩
+    | some sts =>
+      have hl := hwf sts rfl
+      have hst : ∃ st, sts[k]? = some st := ⟨sts[k]'(by omega), List.getElem?_eq_getElem (by omega)⟩
+      obtain ⟨st, hst⟩ := hst
+      cases o <;>
+        exact ⟨hwf, by simp [stepOpN, stepOp, projK, hst], by simp [stepOpN, stepOp, projK, hnone, hst]⟩
+  | unregister =>
+    cases o <;>
+      first
+        | exact ⟨wfnone, by simp [stepOpN, stepOp, projK], by simp [stepOpN, stepOp, hnone]⟩
+        | exact ⟨hwf, by simp [stepOpN, stepOp], by simp [stepOpN, stepOp, hnone]⟩
+
+theorem runOpsN_column (cs : List Cfg) (o : Origin) (k : Nat) (c : Cfg) (hk : cs[k]? = some c) :
+    ∀ (ops : List Op) (s : Option (List Stats)), WFN cs s →
+      column k (runOpsNFrom cs o s ops) = runOpsFrom c o (projK s k) ops := by
+  intro ops
+  induction ops with
+  | nil => intro s _; simp [column, runOpsNFrom, runOpsFrom]
+  | cons op ops ih =>
+    intro s hwf
+    obtain ⟨h1, h2, h3⟩ := stepOpN_sim cs o s op k c hk hwf
+    have := ih (stepOpN cs o s op).1 h1
+    simp only [column, runOpsNFrom, List.flatMap_cons, runOpsFrom] at this ⊢
+    rw [this, h2, h3]
+
 end Limiter
